@@ -80,6 +80,10 @@ def runtime_contract(qualname, args):
     if K.ensures is None:
         return True, "no postcondition"
     good = bool(K.ensures(c, *args, res))
+    oracle = getattr(K.cls, "runtime_oracle", None)
+    if good and oracle is not None:
+        # definition-level oracle for the parts of the postcondition that mention ghost locals
+        good = bool(oracle(*args, res))
     return good, f"result {codec.enc(res) if not isinstance(res, (bool, int)) else res!r}"
 
 
